@@ -1411,23 +1411,27 @@ class UWG(object):
         epw_new_id = open(self.new_epw_path, 'w')
 
         for i in range(8):
-            new_epw_line = \
-                '{}\n'.format(
-                    reduce(lambda x, y: x + ',' + y, self._header[i]))
+            new_epw_line = '{}\n'.format(
+                ','.join(UWG._csv_field(c) for c in self._header[i]))
             epw_new_id.write(new_epw_line)
 
         for i in range(len(self.epwinput)):
-            printme = ''
-            for ei in range(len(self.epwinput[i])):
-                printme += "{}".format(self.epwinput[i][ei]) + ','
-            printme = printme + "{}".format(self.epwinput[i][ei])
-            new_epw_line = '{0}\n'.format(printme)
+            new_epw_line = '{}\n'.format(
+                ','.join(UWG._csv_field(c) for c in self.epwinput[i]))
             epw_new_id.write(new_epw_line)
 
         epw_new_id.close()
 
         print('New climate file is generated at {}.'.format(
               self.new_epw_path))
+
+    @staticmethod
+    def _csv_field(cell):
+        """Format one cell of a csv row, quoting it when it contains a comma or quote."""
+        cell = '{}'.format(cell)
+        if ',' in cell or '"' in cell:
+            return '"' + cell.replace('"', '""') + '"'
+        return cell
 
     def _read_input(self, param_path):
         """Read the parameter input file (.uwg file) and set as UWG attributes."""
